@@ -993,6 +993,12 @@ fn main() {
             && cl.contains("actor . started ( & mut self . ctx ) . await ? ;")
             && cl.contains("actor . stopped ( & mut self . ctx ) . await ;")
             && !cs.contains("timeout_fut");
+        // `timeout_fut` itself: every configured limit (zero included) arms a timer of exactly that length
+        let tf = fns.free.get("timeout_fut").map(|k| k.0.clone()).unwrap_or_default();
+        let ok = ok
+            && tf.contains("if let Some ( timeout ) = timeout {")
+            && tf.contains("futures_timer :: Delay :: new ( timeout )")
+            && tf.matches("Delay :: new").count() == 1;
         sys.push(("timeoutGuardsTaskPayloadsOnly", ok, loc("Environment", "create_loop")));
     }
     for (n, v, w) in &sys {
